@@ -73,7 +73,7 @@ func ParForWatched(c *Ctx, n int64, limit time.Duration, describe func(i int64) 
 					s.mu.Lock()
 					s.busy, s.since = true, time.Now()
 					s.mu.Unlock()
-					f(i)
+					safeJob(f, i)
 					s.mu.Lock()
 					s.busy = false
 					s.mu.Unlock()
